@@ -2178,8 +2178,10 @@ class SourceCatalog:
         else:
             xcen = self._xcentroid
             ycen = self._ycentroid
+            # float output: for an integer background the interpolated
+            # values would be truncated (and NaN could not be assigned)
             bkg = map_coordinates(self._background, (ycen, xcen), order=1,
-                                  mode='nearest')
+                                  mode='nearest', output=float)
 
             mask = np.isfinite(xcen) & np.isfinite(ycen)
             bkg[~mask] = np.nan
